@@ -1432,9 +1432,28 @@ def _cond_wait(I, self, args, kw, fr, site):
     return VBool(I.st.fresh_bool("cond_wait"))
 
 
-@intrinsic("Condition.notify_all", "Condition.notifyAll", "Condition.notify")
-def _cond_notify(I, self, args, kw, fr, site):
+@intrinsic("Condition.notify")
+def _cond_notify_one(I, self, args, kw, fr, site):
+    """wakes ONE waiter (at most n): counted apart from a broadcast - with several waiters the others sleep on"""
+    I.st.events.append(("cond.notify_one", self))
+    if "single_notifications" in I.E.ghost_types:
+        cur = I.st.ghost.get("single_notifications")
+        if cur is None:
+            cur = I.fresh_of_type("int", "ghost.single_notifications")
+            I.st.ghost_init["single_notifications"] = cur
+        I.st.ghost["single_notifications"] = VInt(simp(zint(cur.t) + 1))
+    return _cond_notify(I, self, args, kw, fr, site, broadcast=False)
+
+
+@intrinsic("Condition.notify_all", "Condition.notifyAll")
+def _cond_notify(I, self, args, kw, fr, site, broadcast=True):
     I.st.events.append(("cond.notify", self))
+    if broadcast and "broadcasts" in I.E.ghost_types:
+        cur = I.st.ghost.get("broadcasts")
+        if cur is None:
+            cur = I.fresh_of_type("int", "ghost.broadcasts")
+            I.st.ghost_init["broadcasts"] = cur
+        I.st.ghost["broadcasts"] = VInt(simp(zint(cur.t) + 1))
     if "notifications" in I.E.ghost_types:
         cur = I.st.ghost.get("notifications")
         if cur is None:
